@@ -544,6 +544,80 @@ fn run_children(thorough: bool, seed: u64, r: &mut Report, classes: &Classes) ->
     (cases, crashes)
 }
 
+/// (d) the Shape-level evaluator wrappers (`ShapeBulkEval` / `ShapeTracingEval` own scratch arrays sized per call): one evaluator
+/// object is used on every ordered pair of (shape, sample count) taken from shapes over different variable subsets and counts
+/// 0, 1, 3, 5, 10; every call must return Ok with exactly the requested number of samples and the right values
+fn shape_reuse(fail: &mut dyn FnMut(&str, String, String)) -> u64 {
+    use fidget_core::context::Tree;
+    use fidget_core::shape::EzShape;
+    use fidget_core::vm::VmShape;
+    let shapes: Vec<(&str, Tree, fn(f32, f32, f32) -> f32)> = vec![
+        ("x+y+z", Tree::x() + Tree::y() + Tree::z(), |x, y, z| (x + y) + z),
+        ("x*2", Tree::x() * 2.0, |x, _, _| x * 2.0),
+        ("y*2", Tree::y() * 2.0, |_, y, _| y * 2.0),
+        ("z-x", Tree::z() - Tree::x(), |x, _, z| z - x),
+        ("const", Tree::constant(1.5), |_, _, _| 1.5),
+        ("min(x,y)", Tree::x().min(Tree::y()), |x, y, _| x.min(y)),
+    ];
+    let lens = [10usize, 5, 0, 3, 1];
+    let vs: Vec<VmShape> = shapes.iter().map(|(_, t, _)| VmShape::from(t.clone())).collect();
+    let mut n = 0u64;
+    for i in 0..shapes.len() {
+        for j in 0..shapes.len() {
+            for &li in &lens {
+                for &lj in &lens {
+                    let sig = format!("shape-reuse:{}[{}] then {}[{}]", shapes[i].0, li, shapes[j].0, lj);
+                    let res = std::panic::catch_unwind(std::panic::AssertUnwindSafe(|| {
+                        let mut bad: Vec<String> = vec![];
+                        let mut fe = VmShape::new_float_slice_eval();
+                        let mut ge = VmShape::new_grad_slice_eval();
+                        for &(k, l) in &[(i, li), (j, lj)] {
+                            let xs: Vec<f32> = (0..l).map(|q| 0.5 + q as f32).collect();
+                            let ys: Vec<f32> = (0..l).map(|q| -1.25 * q as f32).collect();
+                            let zs: Vec<f32> = (0..l).map(|q| 3.0 - q as f32).collect();
+                            let t = vs[k].ez_float_slice_tape();
+                            match fe.eval(&t, &xs, &ys, &zs) {
+                                Ok(o) => {
+                                    if o.len() != l { bad.push(format!("float-slice returned {} samples for {}", o.len(), l)); }
+                                    for q in 0..o.len().min(l) {
+                                        let want = (shapes[k].2)(xs[q], ys[q], zs[q]);
+                                        if o[q].to_bits() != want.to_bits() { bad.push(format!("float-slice sample {q} = {} != {}", o[q], want)); break; }
+                                    }
+                                }
+                                Err(e) => bad.push(format!("float-slice error {e:?}")),
+                            }
+                            let gx: Vec<Grad> = xs.iter().map(|v| Grad::new(*v, 1.0, 0.0, 0.0)).collect();
+                            let gy: Vec<Grad> = ys.iter().map(|v| Grad::new(*v, 0.0, 1.0, 0.0)).collect();
+                            let gz: Vec<Grad> = zs.iter().map(|v| Grad::new(*v, 0.0, 0.0, 1.0)).collect();
+                            let t = vs[k].ez_grad_slice_tape();
+                            match ge.eval(&t, &gx, &gy, &gz) {
+                                Ok(o) => {
+                                    if o.len() != l { bad.push(format!("grad-slice returned {} samples for {}", o.len(), l)); }
+                                    for q in 0..o.len().min(l) {
+                                        let want = (shapes[k].2)(xs[q], ys[q], zs[q]);
+                                        if o[q].v.to_bits() != want.to_bits() { bad.push(format!("grad-slice sample {q} = {} != {}", o[q].v, want)); break; }
+                                    }
+                                }
+                                Err(e) => bad.push(format!("grad-slice error {e:?}")),
+                            }
+                        }
+                        bad
+                    }));
+                    n += 4;
+                    match res {
+                        Ok(bad) => { for b in bad { fail("shape-reuse", sig.clone(), b); } }
+                        Err(p) => {
+                            let msg = p.downcast_ref::<String>().cloned().or_else(|| p.downcast_ref::<&str>().map(|s| s.to_string())).unwrap_or_default();
+                            fail("panic", sig.clone(), format!("a Shape-level bulk evaluator panicked on reuse: {msg}"));
+                        }
+                    }
+                }
+            }
+        }
+    }
+    n
+}
+
 pub fn total(thorough: bool, seed: u64) -> Report {
     let classes = Classes::default();
     // keep the expected panic messages of caught panics off the terminal
@@ -585,6 +659,12 @@ pub fn total(thorough: bool, seed: u64) -> Report {
         r.cases += n;
     }
     let arg_cases_vm = r.cases - vm_cases;
+    // (d) Shape-level wrappers, evaluator reuse
+    {
+        let mut fail = |c: &str, s: String, w: String| classes.fail(&mut r, format!("vm:{c}"), s, w, json!({"contract":"total","part":"shape-reuse"}));
+        let n = shape_reuse(&mut fail);
+        r.cases += n;
+    }
     // (c)
     let before = r.cases;
     interval_ops(thorough, &mut r, &classes);
@@ -596,7 +676,7 @@ pub fn total(thorough: bool, seed: u64) -> Report {
     let n_one = us.iter().filter(|u| matches!(u, Unit::OneOp(..))).count();
     let n_expr = us.iter().filter(|u| matches!(u, Unit::Expr(..))).count();
     r.space = format!(
-        "(a) {n_one} one-op tapes (every op case x 3 placements (direct, out==lhs, through stack spills) x every FINITE grid immediate) on every finite operand (pair) of the grid ({} values incl. +-MAX, denormals, +-0) and every finite operand interval (pair) ({} intervals incl. degenerate and zero-touching), and {n_expr} seeded random deep expressions (seed {seed}; 1..=3 variables, up to 10 steps biased to mul/square/exp/div/recip/tan/ln chains with some min/max/and/or, 1..=2 outputs) on 24 points over {{+-MAX, +-1e20, +-1e38, 3, 0.5, +-0, 1e-40, -2.5, 1, 88}} and 24 boxes over all [lo,hi] of those values, plus 3 fixed witness expressions {{exp,atan,ln}}(x*x - y*y) on the finite box x=[1,1e30], y=[1e30,1e30]: each of the 4 evaluator kinds (point, interval, float-slice with lengths all/3/0, grad-slice likewise) must return Ok with output_count outputs / rows of the right length, interval outputs valid (lower<=upper or NaN interval), no Unknown in a trace.  VM backends (budget {JN}; for the expressions also 255 and 3) in-process under catch_unwind ({vm_cases} evaluations); JIT backend in child processes (abort/signal = violation, {crashes} child deaths) ({jit_cases} evaluations incl. its part (b)).  (b) argument errors, for functions with 0..=4 variables: tracing evaluators with 0..=5 values (Err iff fewer than the variable count; extra values fine); bulk evaluators with 0..=5 slices and EVERY tuple of slice lengths 0..=3 (Err iff too few slices or lengths differ; Ok shape (1, n)); never a panic ({arg_cases_vm} VM calls).  (c) Interval::{{recip,sqrt,square,sin,cos,tan,asin,acos,atan,exp,ln,floor,ceil,round,abs,neg,not,rand}} on every interval, Interval*f32 on every (interval, value incl. NaN), {{add,sub,mul,div,rem_euclid,atan2,min,max,and,or,compare,mix}} on every ordered pair, over the NaN interval plus all [lo,hi] of {} values incl. +-inf, +-MAX, +-0, denormal: no panic and a valid result ({iv_cases} calls)",
+        "(a) {n_one} one-op tapes (every op case x 3 placements (direct, out==lhs, through stack spills) x every FINITE grid immediate) on every finite operand (pair) of the grid ({} values incl. +-MAX, denormals, +-0) and every finite operand interval (pair) ({} intervals incl. degenerate and zero-touching), and {n_expr} seeded random deep expressions (seed {seed}; 1..=3 variables, up to 10 steps biased to mul/square/exp/div/recip/tan/ln chains with some min/max/and/or, 1..=2 outputs) on 24 points over {{+-MAX, +-1e20, +-1e38, 3, 0.5, +-0, 1e-40, -2.5, 1, 88}} and 24 boxes over all [lo,hi] of those values, plus 3 fixed witness expressions {{exp,atan,ln}}(x*x - y*y) on the finite box x=[1,1e30], y=[1e30,1e30]: each of the 4 evaluator kinds (point, interval, float-slice with lengths all/3/0, grad-slice likewise) must return Ok with output_count outputs / rows of the right length, interval outputs valid (lower<=upper or NaN interval), no Unknown in a trace.  VM backends (budget {JN}; for the expressions also 255 and 3) in-process under catch_unwind ({vm_cases} evaluations); JIT backend in child processes (abort/signal = violation, {crashes} child deaths) ({jit_cases} evaluations incl. its part (b)).  (b) argument errors, for functions with 0..=4 variables: tracing evaluators with 0..=5 values (Err iff fewer than the variable count; extra values fine); bulk evaluators with 0..=5 slices and EVERY tuple of slice lengths 0..=3 (Err iff too few slices or lengths differ; Ok shape (1, n)); never a panic ({arg_cases_vm} VM calls).  (d) Shape-level bulk evaluators (float-slice, grad-slice): one evaluator object on every ordered pair of (shape over a different variable subset, sample count in {{10,5,0,3,1}}) for 6 shapes: Ok, exact sample count, exact values.  (c) Interval::{{recip,sqrt,square,sin,cos,tan,asin,acos,atan,exp,ln,floor,ceil,round,abs,neg,not,rand}} on every interval, Interval*f32 on every (interval, value incl. NaN), {{add,sub,mul,div,rem_euclid,atan2,min,max,and,or,compare,mix}} on every ordered pair, over the NaN interval plus all [lo,hi] of {} values incl. +-inf, +-MAX, +-0, denormal: no panic and a valid result ({iv_cases} calls)",
         finite_grid(thorough).len(), finite_intervals(thorough).len(), if thorough { 21 } else { 15 });
     r.distinct = r.cases;
     r.exhaustive = false;
